@@ -91,8 +91,15 @@ def c05(ctx):
 
 def c06(ctx):
     ctx.assumptions += LANE_ASSUME
-    _with_mc(ctx, lambda: mc_intlane(ctx, ['C06']),
-             lambda: runner.lane_facts(ctx, 'drv_int.cpp', 'bitfn', INT_GROUPS))
+
+    def conf():
+        runner.lane_facts(ctx, 'drv_int.cpp', 'bitfn', INT_GROUPS)
+        if ctx.tier == 'thorough':
+            # all 2^32 values of every 32-bit unary function against the compiler builtins;
+            # every disagreement is forwarded to TLC (the comparison itself decides nothing)
+            ctx.assumptions.append('thorough: all 2^32 lane values of the 32-bit unary functions swept natively against the <bit> builtins in every configuration; disagreements (and only those) are judged by TLC')
+            runner.lane_facts(ctx, 'drv_int.cpp', 'sweep32', [32])
+    _with_mc(ctx, lambda: mc_intlane(ctx, ['C06']), conf)
 
 
 def c07(ctx):
@@ -335,6 +342,12 @@ def c10(ctx):
 
 def c11(ctx):
     _fp(ctx, 'fround')
+    if ctx.tier == 'thorough':
+        ctx.assumptions.append('thorough: all 2^32 binary32 patterns of ceil/floor/trunc/round/nearbyint/rint/sqrt (RN and RD) and of logb/frac/abs/neg/classification swept natively against <cmath> in the quick configurations; disagreements (other than the sign of a zero computed from a non-zero input) are judged by TLC')
+        saved = ctx.cfgs
+        ctx.cfgs = runner.configs.quick_configs()
+        runner.lane_facts(ctx, 'drv_fp.cpp', 'fsweep', [32])
+        ctx.cfgs = saved
 
 
 def c12(ctx):
